@@ -243,6 +243,37 @@ def adapter_S(lines=()):
     return "S@%s@0" % enc_rules(list(lines))
 
 
+def adapter_T(text):
+    """StringAdapter over a raw policy TEXT (comments, blank lines, spacing, CRLF as given)"""
+    return "T@%s" % enc(text)
+
+
+def adapter_Ft(text):
+    """FileAdapter over a file holding a raw policy TEXT"""
+    return "Ft@%s" % enc(text)
+
+
+def policy_text(rnd, lines, crlf=None):
+    """render parsed lines ([ptype, fields...]) as a policy file with a random layout: comment and blank lines
+    anywhere, blanks around columns, optional quoting, LF or CRLF, last line with or without terminator"""
+    out = []
+    crlf = rnd.random() < 0.3 if crlf is None else crlf
+    for l in lines:
+        while rnd.random() < 0.35:
+            out.append(rnd.choice(["", "# a comment", "#p, hidden, rule, x", "   ", "\t", "# g, a, b"]))
+        cols = []
+        for i, v in enumerate(l):
+            pre = rnd.choice(["", "", " ", "  ", "\t"]) if i > 0 else ""
+            post = rnd.choice(["", "", " ", "\t"])
+            q = ("," in v) or (v != v.strip()) or (i > 0 and rnd.random() < 0.2)
+            cols.append(pre + ('"' + v + '"' if q else v) + post)
+        out.append(",".join(cols))
+    while rnd.random() < 0.3:
+        out.append(rnd.choice(["", "# trailing comment"]))
+    eol = "\r\n" if crlf else "\n"
+    return eol.join(out) + (eol if rnd.random() < 0.7 else "")
+
+
 def adapter_X(inner, script):
     return "X@%s@%s" % (inner, script if script else "-")
 
